@@ -285,3 +285,47 @@ theorem canon_foldTables {t t' : Table} (ht : Canon t) {cs : List Cert} (h : Spe
       exact ih (canon_tableStep ht hs) h
 
 end F3.Store
+
+namespace F3.Store
+
+/-! ### `toArray` really sorts -/
+
+theorem entryLe_iff (a b : Entry) : entryLe a b = true ↔ (b.power < a.power ∨ (a.power = b.power ∧ a.id ≤ b.id)) := by
+  simp [entryLe]
+
+theorem entryLe_total (a b : Entry) : entryLe a b = true ∨ entryLe b a = true := by
+  rw [entryLe_iff, entryLe_iff]; omega
+
+theorem entryLe_trans {a b c : Entry} (h1 : entryLe a b = true) (h2 : entryLe b c = true) : entryLe a c = true := by
+  rw [entryLe_iff] at *; omega
+
+theorem insertEntry_sorted (e : Entry) {l : Table} (h : l.Pairwise (fun a b => entryLe a b = true)) :
+    (insertEntry e l).Pairwise (fun a b => entryLe a b = true) := by
+  induction l with
+  | nil => simp [insertEntry]
+  | cons x r ih =>
+    rw [List.pairwise_cons] at h
+    unfold insertEntry
+    split
+    · rename_i hle
+      refine List.pairwise_cons.2 ⟨?_, List.pairwise_cons.2 h⟩
+      intro y hy
+      rcases List.mem_cons.1 hy with rfl | hy
+      · exact hle
+      · exact entryLe_trans hle (h.1 y hy)
+    · rename_i hnle
+      refine List.pairwise_cons.2 ⟨?_, ih h.2⟩
+      intro y hy
+      rcases List.mem_cons.1 ((insertEntry_perm e r).mem_iff.1 hy) with rfl | hy
+      · rcases entryLe_total y x with h' | h'
+        · exact absurd h' hnle
+        · exact h'
+      · exact h.1 y hy
+
+/-- The array handed out for a map is ordered by power descending, then id ascending. -/
+theorem toArray_sorted (m : PMap) : (toArray m).Pairwise (fun a b => entryLe a b = true) := by
+  induction m with
+  | nil => simp [toArray]
+  | cons e r ih => exact insertEntry_sorted e ih
+
+end F3.Store
